@@ -97,6 +97,7 @@ package io
 //@   ensures old(this.obs.ofailed) ==> this.obs.ofailed
 //@   ensures this.obs.oclosed == old(this.obs.oclosed)
 //@   atreturn res.err == nil && postTransformLength < 4294967296 ==> 1 <= dataSize && dataSize <= 4 && (dataSize == 1 ==> postTransformLength < 256) && (dataSize == 2 ==> postTransformLength < 65536) && (dataSize == 3 ==> postTransformLength < 16777216)     #length-fits-its-field
+//@   atcall NewEntropyEncoder has(this.ctx, "size") && istype(this.ctx["size"], "uint") && unbox(this.ctx["size"], "uint") == postTransformLength       #entropy-codec-sized-by-the-transformed-length @C01
 //@   ghostdef res.err == nil && *this.processedBlockID == this.currentBlockID ==> this.obs.plain == old(this.obs.plain) + this.blockLength
 //@   ghostdef !(res.err == nil && *this.processedBlockID == this.currentBlockID) ==> this.obs.plain == old(this.obs.plain)
 //@   modifies res.err, *this.processedBlockID, this.blockTransformType, this.blockEntropyType, this.iBuffer.Buf, this.oBuffer.Buf, this.ctx[*], this.listeners[*], this.obs.wbits, this.obs.ofailed, this.obs.tapeV, this.obs.tapeW, this.obs.plain, "A!Int"
@@ -254,12 +255,13 @@ package io
 
 //@ func (*decodingTask) decode
 //@   mode int
-//@   props C02 C03 C05 C07 C08 C09 C11
+//@   props C01 C02 C03 C05 C07 C08 C09 C11
 //@   opt calls may-panic
 //@   opt panics caught
 //@   requires this.processedBlockID != nil && res != nil && this.wg != nil && this.iBuffer != nil && this.oBuffer != nil && this.ctx != nil && this.ibs != nil && this.currentBlockID >= 1 && this.iBuffer != this.oBuffer
 //@   requires this.blockLength >= 1024 && this.blockLength <= 1207959552
 //@   requires res.err == nil && res.decoded == 0 && !res.skipped
+//@   atcall NewEntropyDecoder has(this.ctx, "size") && istype(this.ctx["size"], "uint") && unbox(this.ctx["size"], "uint") == preTransformLength        #entropy-codec-sized-by-the-stored-length @C01
 //@   requires has(this.ctx, "from") ==> istype(this.ctx["from"], "int")
 //@   requires has(this.ctx, "to") ==> istype(this.ctx["to"], "int")
 //@   ensures res.err != nil ==> *this.processedBlockID == 0 - 1                                                    #error-cancels
